@@ -142,6 +142,16 @@ func (p *Processor) ChargingDataCreate(
 	self := chf_context.GetSelf()
 	ueId := chargingData.SubscriberIdentifier
 
+	// nfConsumerIdentification is mandatory (TS 32.291 6.1.6.2.1.1)
+	if chargingData.NfConsumerIdentification == nil {
+		logger.ChargingdataPostLog.Errorf("Charging data request of [%s] has no nfConsumerIdentification", ueId)
+		problemDetails := &models.ProblemDetails{
+			Status: http.StatusBadRequest,
+			Cause:  "MANDATORY_IE_MISSING",
+		}
+		return nil, "", problemDetails
+	}
+
 	// Open CDR
 	// ChargingDataRef(charging session id):
 	// A unique identifier for a charging data resource in a PLMN
